@@ -67,3 +67,12 @@ Section Order.
     - eapply Permutation_trans; [apply order_by_id_perm|exact Hp].
   Qed.
 End Order.
+
+(* job numbers 9, 10, 11 (the 4th call of a 3-member ensemble) written in decimal: increasing as integers, but sorting the
+   digit strings returns the members in the order 1, 2, 0 *)
+Lemma string_ids_witness :
+  let subm := [([9], 0%nat); ([1; 0], 1%nat); ([1; 1], 2%nat)]%nat in
+  map (fun p => digits_value (fst p)) subm = [9; 10; 11]%nat
+  /\ map snd (order_by_digits subm) = [1; 2; 0]%nat
+  /\ map snd (order_by_id (map (fun p => (Z.of_nat (digits_value (fst p)), snd p)) subm)) = [0; 1; 2]%nat.
+Proof. vm_compute. repeat split; reflexivity. Qed.
